@@ -1,13 +1,16 @@
 #!/bin/sh
-# usage: tools/par_seeded.sh [workers]   — runs every seeded change against the check of its property on SCRATCH
+# usage: tools/par_seeded.sh [workers] [glob, default 'C*_*'] [results file, default seeded/RESULTS.md]
+#   — runs every seeded change (or those matching the glob, e.g. 'C*_[GH]') against the check of its property on SCRATCH
 # copies (a git worktree of /repo at HEAD + a copy of /verif per worker, under /tmp/opfverif-par/), in parallel,
 # and writes seeded/RESULTS.md. /repo itself is never touched; every scratch worktree/copy is removed at the end.
 # (The registered way to try ONE change against /repo itself is tools/try_mutant.sh.)
 N=${1:-6}
+GLOB=${2:-C*_*}
 cd "$(dirname "$0")/.." || exit 2
+OUTF=${3:-seeded/RESULTS.md}
 ROOT=/tmp/opfverif-par
 rm -rf $ROOT; mkdir -p $ROOT
-ls -d seeded/C*_* | sort > $ROOT/all
+ls -d seeded/$GLOB | sort > $ROOT/all
 i=0
 while read d; do echo "$d" >> $ROOT/list$((i % N)); i=$((i+1)); done < $ROOT/all
 for w in $(seq 0 $((N-1))); do
@@ -37,8 +40,8 @@ echo
 echo "| change | check | exit | verdict line |"
 echo "|---|---|---|---|"
 cat $ROOT/out* | sort
-} > seeded/RESULTS.md
+} > $OUTF
 git -C /repo worktree prune
-grep -c "| 1 |" seeded/RESULTS.md
-grep -v "| 1 |" seeded/RESULTS.md | tail -n +5
+grep -c "| 1 |" $OUTF
+grep -v "| 1 |" $OUTF | tail -n +5
 rm -rf $ROOT
